@@ -10,6 +10,7 @@ from typing import TYPE_CHECKING, Any, List
 
 from pyopenapi_gen.core.utils import NameSanitizer
 from pyopenapi_gen.core.writers.code_writer import CodeWriter
+from pyopenapi_gen.core.writers.python_construct_renderer import _py_str
 
 if TYPE_CHECKING:
     from pyopenapi_gen import IROperation  # IRParameter might be needed for op.parameters access
@@ -53,12 +54,12 @@ class EndpointUrlArgsGenerator:
 
             if p.get("required", False):
                 writer.write_line(
-                    f'    "{original_param_name}": DataclassSerializer.serialize({param_var_name}){line_end}'
+                    f"    {_py_str(original_param_name)}: DataclassSerializer.serialize({param_var_name}){line_end}"
                 )
             else:
                 # Using dict unpacking for conditional parameters
                 writer.write_line(
-                    f'    **({{"{original_param_name}": DataclassSerializer.serialize({param_var_name})}} '
+                    f"    **({{{_py_str(original_param_name)}: DataclassSerializer.serialize({param_var_name})}} "
                     f"if {param_var_name} is not None else {{}}){line_end}"
                 )
 
@@ -84,14 +85,14 @@ class EndpointUrlArgsGenerator:
 
             if p_info.get("required", False):
                 writer.write_line(
-                    f'    "{original_header_name}": DataclassSerializer.serialize({param_var_name}){line_end}'
+                    f"    {_py_str(original_header_name)}: DataclassSerializer.serialize({param_var_name}){line_end}"
                 )
             else:
                 # Conditional inclusion for optional headers
                 # This assumes that if an optional header parameter is None, it should not be sent.
                 # If specific behavior (e.g. empty string) is needed for None, logic would adjust.
                 writer.write_line(
-                    f'    **({{"{original_header_name}": DataclassSerializer.serialize({param_var_name})}} '
+                    f"    **({{{_py_str(original_header_name)}: DataclassSerializer.serialize({param_var_name})}} "
                     f"if {param_var_name} is not None else {{}}){line_end}"
                 )
 
@@ -158,10 +159,10 @@ class EndpointUrlArgsGenerator:
                 param_var_name = NameSanitizer.sanitize_method_name(p_info["name"])
                 original_cookie_name = p_info["original_name"]
                 if p_info.get("required", False):
-                    writer.write_line(f'    "{original_cookie_name}": DataclassSerializer.serialize({param_var_name}),')
+                    writer.write_line(f"    {_py_str(original_cookie_name)}: DataclassSerializer.serialize({param_var_name}),")
                 else:
                     writer.write_line(
-                        f'    **({{"{original_cookie_name}": DataclassSerializer.serialize({param_var_name})}} '
+                        f"    **({{{_py_str(original_cookie_name)}: DataclassSerializer.serialize({param_var_name})}} "
                         f"if {param_var_name} is not None else {{}}),"
                     )
             writer.write_line("}")
